@@ -228,13 +228,17 @@ var c08Kinds = []string{
 	"reader-readrows",    // parquet.NewReader(file).SeekToRow/ReadRows
 	"reader-read",        // parquet.NewReader(file).SeekToRow/Read(&row)
 	"generic-reader",     // parquet.NewGenericReader[T](file).SeekToRow/Read
-	"multi-rows",         // parquet.MultiRowGroup(rowGroups...).Rows()
-	"multi-pages",        // parquet.MultiRowGroup(rowGroups...).ColumnChunks()[c].Pages()
-	"multi-values",       // NewColumnChunkValueReader over a multi column chunk
-	"range-rows",         // row range view (row_range.go).Rows()
-	"range-pages",        // row range view column chunk .Pages()
-	"buffer-rows",        // GenericBuffer[T].Rows()
-	"buffer-pages",       // GenericBuffer[T].ColumnChunks()[c].Pages()
+	// two read styles interleaved on ONE reader: a read with an odd batch size b is the typed style
+	// (Reader.Read(&v) b times / GenericReader.Read([]T of b)), with an even one it is ReadRows(b)
+	"reader-mixed",
+	"generic-reader-mixed",
+	"multi-rows",   // parquet.MultiRowGroup(rowGroups...).Rows()
+	"multi-pages",  // parquet.MultiRowGroup(rowGroups...).ColumnChunks()[c].Pages()
+	"multi-values", // NewColumnChunkValueReader over a multi column chunk
+	"range-rows",   // row range view (row_range.go).Rows()
+	"range-pages",  // row range view column chunk .Pages()
+	"buffer-rows",  // GenericBuffer[T].Rows()
+	"buffer-pages", // GenericBuffer[T].ColumnChunks()[c].Pages()
 }
 
 type c08View struct {
@@ -255,6 +259,7 @@ type c08View struct {
 }
 
 type c08TypedReader interface {
+	ReadRows([]parquet.Row) (int, error)
 	Reset()
 	SeekToRow(int64) error
 	ReadN(n int) (reflect.Value, int, error)
@@ -266,6 +271,9 @@ type c08Typed[T any] struct{ r *parquet.GenericReader[T] }
 func (t c08Typed[T]) SeekToRow(k int64) error { return t.r.SeekToRow(k) }
 func (t c08Typed[T]) Close() error            { return t.r.Close() }
 func (t c08Typed[T]) Reset()                  { t.r.Reset() }
+func (t c08Typed[T]) ReadRows(rows []parquet.Row) (int, error) {
+	return t.r.ReadRows(rows)
+}
 func (t c08Typed[T]) ReadN(n int) (reflect.Value, int, error) {
 	buf := make([]T, n)
 	k, err := t.r.Read(buf)
@@ -451,6 +459,40 @@ func (f *c08File) open(sp c08Spec) (v *c08View, err error) {
 		v.reset = tr.Reset
 		v.readTyped = tr.ReadN
 		v.close = func() { tr.Close() }
+	case "reader-mixed":
+		v.total = f.n
+		rd := parquet.NewReader(pf)
+		useRows(rd) // ReadRows, SeekToRow, Reset, Close
+		v.mode = "mixed"
+		typ := f.rows.Type().Elem()
+		v.readTyped = func(batch int) (reflect.Value, int, error) {
+			out := reflect.MakeSlice(f.rows.Type(), 0, batch)
+			for i := 0; i < batch; i++ {
+				p := reflect.New(typ)
+				if err := rd.Read(p.Interface()); err != nil {
+					return out, i, err
+				}
+				out = reflect.Append(out, p.Elem())
+			}
+			return out, batch, nil
+		}
+	case "generic-reader-mixed":
+		v.total = f.n
+		op := c08TypedOpeners[f.name]
+		if op == nil {
+			return nil, fmt.Errorf("no typed opener")
+		}
+		tr := op(pf)
+		v.mode = "mixed"
+		v.seek = tr.SeekToRow
+		v.reset = tr.Reset
+		v.readTyped = tr.ReadN
+		v.readRows = func(batch int) ([][][]gen.Triple, error) {
+			buf := make([]parquet.Row, batch)
+			n, err := tr.ReadRows(buf)
+			return rowsToTriples(buf[:n], f.ncol), err
+		}
+		v.close = func() { tr.Close() }
 	case "multi-rows":
 		v.total = f.n
 		useRows(parquet.MultiRowGroup(pf.RowGroups()...).Rows())
@@ -626,10 +668,18 @@ func (ck *c08Checker) step(op c08Op) (desc string, fail *c08Fail) {
 	if batch < 1 {
 		batch = 1
 	}
+	mode := v.mode
+	if mode == "mixed" {
+		if batch%2 == 1 {
+			mode = "typed"
+		} else {
+			mode = "rows"
+		}
+	}
 	if ck.dead || ck.unknown {
 		// only looking for panics after an accepted negative seek or a failed read
 		var err error
-		switch v.mode {
+		switch mode {
 		case "rows":
 			_, err = v.readRows(batch)
 		case "typed":
@@ -674,7 +724,7 @@ func (ck *c08Checker) step(op c08Op) (desc string, fail *c08Fail) {
 		}
 		return d, nil
 	}
-	switch v.mode {
+	switch mode {
 	case "rows":
 		rows, err := v.readRows(batch)
 		n := len(rows)
@@ -844,9 +894,9 @@ func c08Shrink(f *c08File, sp c08Spec, ops []c08Op, sym string) []c08Op {
 	}
 	// simplify the arguments: smaller batch sizes
 	for i := range ops {
-		if ops[i].K == 'r' && ops[i].A != 1 {
+		if ops[i].K == 'r' && ops[i].A > 2 {
 			cand := append([]c08Op{}, ops...)
-			cand[i].A = 1
+			cand[i].A = 2 - ops[i].A%2 // keep the parity: it selects the read style on mixed readers
 			if fails(cand) {
 				ops = cand
 			}
@@ -967,7 +1017,7 @@ func c08RandSpec(f *c08File, r *rand.Rand, kind string) (c08Spec, bool) {
 	sp.ReadBuf = []int{0, 0, 1, 16, 64, 300, 4096}[r.Intn(7)]
 	if f.nrg() == 0 {
 		switch kind {
-		case "reader-readrows", "reader-read", "generic-reader", "buffer-rows", "buffer-pages":
+		case "reader-readrows", "reader-read", "generic-reader", "reader-mixed", "generic-reader-mixed", "buffer-rows", "buffer-pages":
 		default:
 			return sp, false
 		}
@@ -976,7 +1026,7 @@ func c08RandSpec(f *c08File, r *rand.Rand, kind string) (c08Spec, bool) {
 		sp.RG = r.Intn(f.nrg())
 	}
 	sp.Col = r.Intn(f.ncol)
-	if kind == "generic-reader" && c08TypedOpeners[f.name] == nil {
+	if (kind == "generic-reader" || kind == "generic-reader-mixed") && c08TypedOpeners[f.name] == nil {
 		return sp, false
 	}
 	if strings.HasPrefix(kind, "range-") {
@@ -997,7 +1047,7 @@ func c08RandSpec(f *c08File, r *rand.Rand, kind string) (c08Spec, bool) {
 func c08Marks(f *c08File, sp c08Spec, v *c08View, r *rand.Rand) []int {
 	var marks []int
 	col := sp.Col
-	if v.mode == "rows" || v.mode == "typed" {
+	if v.mode == "rows" || v.mode == "typed" || v.mode == "mixed" {
 		col = r.Intn(f.ncol)
 	}
 	for rg := 0; rg < f.nrg(); rg++ {
@@ -1721,6 +1771,7 @@ var c08Regressions = []struct{ name, ops string }{
 	{"end and beyond", "s99 r1 r1 s100 r1 s1000 r1 s0 r1"},
 	{"Reset then seek to where the reader was", "r5 z s5 r5"},
 	{"Reset then read on", "s40 r5 z r5 s10 r1"},
+	{"two read styles on one reader (odd batch: typed Read, even: ReadRows)", "s20 r1 r1 r2 r1 r2 s7 r2 r1 r4"},
 }
 
 // on the fixed file with page 1 of column id (rows 10..19) corrupted
